@@ -407,16 +407,18 @@ class RequestWideParams(object):
         #  maybe when we make group_policy optional.
         limit = req.GET.getall('limit')
         # JSONschema has already confirmed that limit has the form
-        # of an integer.
+        # of an integer - for the last occurrence, which is the one a dict
+        # of the query parameters keeps.
         if limit:
-            limit = int(limit[0])
+            limit = int(limit[-1])
 
         # TODO(efried): Make it an error to specify group_policy more than once
         #  - maybe when we make it optional.
         group_policy = req.GET.getall('group_policy') or None
         # Schema ensures we get either "none" or "isolate"
+        # (again for the last occurrence).
         if group_policy:
-            group_policy = group_policy[0]
+            group_policy = group_policy[-1]
 
         anchor_required_traits = None
         anchor_forbidden_traits = None
